@@ -245,6 +245,29 @@ def run_harness(prop, tier, seed, outdir, extra_env=None, binary=None, args=None
         cmd += args
     rc, out, wall = run(cmd, env=env, timeout=timeout or (3400 if tier == "thorough" else 1500))
     sp = os.path.join(outdir, "stats.json")
+    if not os.path.exists(sp) and rc not in (0, 124) and "-trace" not in cmd:
+        # the process died where no recover reaches (fatal error: stack overflow, out of memory, a fault): run it
+        # again with every case written before it is executed; the last line is the input that kills it
+        tr = os.path.join(outdir, "trace.tsv")
+        rc2, out2, _ = run(cmd + ["-trace", tr], env=env, timeout=timeout or (3400 if tier == "thorough" else 1500))
+        last = ""
+        if os.path.exists(tr):
+            with open(tr, "rb") as f:
+                try:
+                    f.seek(-200000, 2)
+                except OSError:
+                    f.seek(0)
+                lines = f.read().decode("utf-8", "replace").split("\n")
+            lines = [l for l in lines if l.strip()]
+            last = lines[-1] if lines else ""
+            os.remove(tr)
+        if not os.path.exists(sp):
+            msg = [l for l in (out2 or out).split("\n") if l.startswith(("fatal error", "panic:", "runtime:", "SIG", "unexpected fault"))][:3]
+            stats = {"findings": [{"kind": "fatal", "fn": last.split("\t")[0] if last else None, "case": last or None,
+                                   "detail": "the process executing the library died (exit %s): %s" % (rc2, " | ".join(msg) or (out2 or out)[-300:])}],
+                     "evaluations": 0, "notes": ["harness died; input located by a traced re-run"], "_rc": 3, "_out": (out2 or out)[-2000:]}
+            # the cases written before the death are still compared
+            return stats
     if not os.path.exists(sp):
         raise Infra("harness produced no stats (rc=%s):\n%s" % (rc, out[-3000:]))
     stats = json.load(open(sp))
